@@ -184,6 +184,11 @@ def replay_one(scn, rec, opts):
                     res["status"] = "truncated"
                     res["why"] = "clause-too-large"
                     break
+                if op["op"] == "load" and scn.get("may_refuse_names") and type(e).__name__ == "CompilerError" and "not an identifier" in str(e):
+                    # the compiler may refuse a predicate name it cannot express; then nothing is loaded
+                    res["status"] = "truncated"
+                    res["why"] = "compiler-refuses-name"
+                    break
                 phase = "compile" if op["op"] in ("load", "loadfail") else "run"
                 tb = traceback.extract_tb(e.__traceback__)
                 where = ""
@@ -201,6 +206,13 @@ def replay_one(scn, rec, opts):
                     exp["end"] = obs.get("end")
                     if "pys" in exp:
                         exp["pys"] = exp["pys"][:n]
+            if viol is None and obs.get("k") == "load-raised":
+                if obs.get("changed"):
+                    viol = ("load-raised", "a load that raised (%s) changed the engine: %s" % (obs.get("exc"), ", ".join(obs["changed"][:6])))
+                else:
+                    res["status"] = "truncated"
+                    res["why"] = "load-refused-unchanged"
+                    break
             if viol is None:
                 if obs.get("k") == "solve" and obs.get("end") == "exception":
                     viol = ("exception", "run:" + str(obs.get("exc")))
